@@ -22,7 +22,7 @@ ASSUMPTIONS = ["validation happens at producer exit only (never mid-write)",
 MIN_NONTRIVIAL = {"quick": 300, "thorough": 3000}
 REQUIRED_PROBES = ["create_exit", "rlencode", "index_pixels", "index_bins"]
 REQUIRED_FEATURES = ["op:create", "op:create-unordered", "op:merge", "op:coarsen", "op:zoomify", "op:scool",
-                     "op:cli-load", "op:cli-cload-pairs", "big:edge-inside-run", "big:edge-on-run-start",
+                     "op:cli-load", "op:cli-cload-pairs", "create:ensure_sorted", "big:edge-inside-run", "big:edge-on-run-start",
                      "big:edge-one-past-run-start"]
 SHARD_TIMEOUT = {"quick": 1800, "thorough": 7200}
 
@@ -141,7 +141,17 @@ def run_c01_inputs(ctx, shard):
                 pixels = ArrayLoader(bins, arr, int(rng.integers(1, n + 2)))
                 kw["ordered"] = True
             elif form.startswith("chunks"):
-                pixels = iter(gen.chunk_frames(df, gen.random_cuts(rng, len(df), 6)))
+                chs = gen.chunk_frames(df, gen.random_cuts(rng, len(df), 6))
+                es = int(rng.integers(4))
+                if es in (1, 2) and len(df):
+                    kw["ensure_sorted"] = True
+                    if es == 1:
+                        chs = [ch.iloc[rng.permutation(len(ch))].reset_index(drop=True) for ch in chs]
+                    else:
+                        chs = [ch.assign(_k=rng.random(len(ch))).sort_values(["bin1_id", "_k"]).drop(columns="_k")
+                               .reset_index(drop=True) for ch in chs]
+                    c.feature("create:ensure_sorted")
+                pixels = iter(chs)
                 kw["ordered"] = True
             elif form == "dict":
                 pixels = {col: df[col].to_numpy() for col in df.columns}
